@@ -21,7 +21,7 @@ def _num(x):
         return "nan"
     if x in (float("inf"), float("-inf")):
         return str(x)
-    return float(format(x, ".11g"))
+    return float(format(x, ".11g")) + 0.0  # (+ 0.0 turns -0.0 into 0.0: the sign of zero is a last-bit difference)
 
 
 def canon(o):
